@@ -48,7 +48,7 @@ theorem msgid_flat (R : List RPart) (h : isFlat R = true) : msgid R = some (writ
     `parts_placeholderString`).  Its PO msgid exists, and rendering with the catalogue entry
     `msgstr = msgid` (built by `newMessage`, i.e. through `Parts`) gives byte for byte what
     rendering without a catalogue gives — for every environment. -/
-theorem identity_translation (o : Orders) (ho : o.Valid) (body : List Part) (hflat : bodyFlat body = true)
+theorem identity_translation_of_guard (o : Orders) (ho : o.Valid) (body : List Part) (hflat : bodyFlat body = true)
     (hguard : NoMatch (leadText (namedBody o body))) (hok : FlatOK (namedBody o body)) :
     ∃ id, msgid (rbody o body) = some id ∧
       renderTranslated ρ ν sel (rbody o body) (newMessage [] [id]) = some (renderSource ρ ν (rbody o body)) := by
@@ -62,6 +62,29 @@ theorem identity_translation (o : Orders) (ho : o.Valid) (body : List Part) (hfl
     (fun n s s' h h' => congrArg ρ (flat_name_determines_src o ho body hflat n s s' h h'))
     (rbody o body) [] hR (fun _ h => h)
   simpa [renderSource] using this
+
+/-- `Validate` implies the text guard: for a flat compiled body that `pomsg.Validate` accepts
+    (its literal text contains no `{[A-Z0-9_]+}`) and whose names are in `[A-Z0-9_]+`, the
+    hypotheses of `parts_placeholderString` hold.  (Validate's buffer is the texts
+    concatenated with a NUL per placeholder: exactly the merged text runs.) -/
+theorem validate_implies_text_guard (o : Orders) (body : List Part) (hflat : bodyFlat body = true)
+    (hval : validate (rbody o body) = true) (hnames : NamesValid (rbody o body)) :
+    NoMatch (leadText (namedBody o body)) ∧ FlatOK (namedBody o body) := by
+  have hR : isFlat (rbody o body) = true := isFlat_annotList _ body hflat
+  have hN : toNList (rbody o body) = namedBody o body := toNList_annotList_flat _ body hflat
+  rw [validate_flat _ hR] at hval
+  rw [← hN]
+  exact text_guard_of_validateText _ hR hval hnames
+
+/-- FULL (non-plural messages): a flat message that is PO-representable (`Validate` accepts
+    it) and whose placeholder names are in `[A-Z0-9_]+`: with `msgstr = msgid` the translated
+    render equals the render without a catalogue, for every environment. -/
+theorem identity_translation (o : Orders) (ho : o.Valid) (body : List Part) (hflat : bodyFlat body = true)
+    (hval : validate (rbody o body) = true) (hnames : NamesValid (rbody o body)) :
+    ∃ id, msgid (rbody o body) = some id ∧
+      renderTranslated ρ ν sel (rbody o body) (newMessage [] [id]) = some (renderSource ρ ν (rbody o body)) := by
+  obtain ⟨g, f⟩ := validate_implies_text_guard o body hflat hval hnames
+  exact identity_translation_of_guard ρ ν sel o ho body hflat g f
 
 /-- the compiled body of a PO-shaped plural message -/
 theorem rbody_poPlural (o : Orders) (b s : Bytes) (k : Int) (c d : List Part) :
@@ -99,14 +122,13 @@ theorem poPlural_name_determines_src (o : Orders) (ho : o.Valid) (b s₀ : Bytes
     It passes `Validate`; with `msgstr[0] = msgid`, `msgstr[1] = msgid_plural` (turned into a
     `PluralPart` by `newMessage`) and a two-form selector (`sel 1 = 0`, otherwise 1) the
     translated render equals the source render for every plural value and environment. -/
-theorem identity_translation_plural (o : Orders) (ho : o.Valid) (b s : Bytes) (c d : List Part)
+theorem identity_translation_plural_of_guard (o : Orders) (ho : o.Valid) (b s : Bytes) (c d : List Part)
     (hc : bodyFlat c = true) (hd : bodyFlat d = true)
     (hsel1 : sel 1 = 0) (hselN : ∀ n, n ≠ 1 → sel n = 1) :
     let body := [Part.plural b s [(1, c)] d]
     let nm := nmOf o body
     NoMatch (leadText (toNList (annotList nm c))) → FlatOK (toNList (annotList nm c)) →
     NoMatch (leadText (toNList (annotList nm d))) → FlatOK (toNList (annotList nm d)) →
-    validate (rbody o body) = true ∧
     ∃ id idPlural, msgid (rbody o body) = some id ∧ msgidPlural (rbody o body) = some idPlural ∧
       renderTranslated ρ ν sel (rbody o body) (newMessage (nm b s) [id, idPlural])
         = some (renderSource ρ ν (rbody o body)) := by
@@ -115,7 +137,7 @@ theorem identity_translation_plural (o : Orders) (ho : o.Valid) (b s : Bytes) (c
   have hD : isFlat (annotList nm d) = true := isFlat_annotList _ d hd
   have hR : rbody o body = [.plural (nm b s) s [(1, annotList nm c)] (annotList nm d)] := rbody_poPlural o b s 1 c d
   rw [hR]
-  refine ⟨by simp [validate, validateFrom], writephList (annotList nm c), writephList (annotList nm d), rfl, rfl, ?_⟩
+  refine ⟨writephList (annotList nm c), writephList (annotList nm d), rfl, rfl, ?_⟩
   have hnew : newMessage (nm b s) [writephList (annotList nm c), writephList (annotList nm d)] =
       [.plural (nm b s) [liftParts (parts (writephList (annotList nm c))), liftParts (parts (writephList (annotList nm d)))]] := by
     unfold newMessage
@@ -143,6 +165,32 @@ theorem identity_translation_plural (o : Orders) (ho : o.Valid) (b s : Bytes) (c
     have : ¬ ((1 : Int) < 0) := by decide
     simp only [this, if_false]
     simp [renderTCase, rd]
+
+/-- `Validate` on a PO-shaped plural is the text check of its two bodies -/
+theorem validate_poPlural (N s : Bytes) (C D : List RPart) :
+    validate [.plural N s [(1, C)] D] = (validateText C && validateText D) := by
+  have : validateText [RPart.plural N s [(1, C)] D] = true := by
+    simp only [validateText, litText]; decide
+  simp [validate, validateFrom, this]
+
+/-- FULL (PO-valid plural messages): the sole child is a plural with `{case 1}` and
+    `{default}`, flat bodies; `Validate` accepts the message and the names are in
+    `[A-Z0-9_]+`.  With `msgstr[0] = msgid`, `msgstr[1] = msgid_plural` and a two-form selector
+    the translated render equals the source render for every plural value and environment. -/
+theorem identity_translation_plural (o : Orders) (ho : o.Valid) (b s : Bytes) (c d : List Part)
+    (hc : bodyFlat c = true) (hd : bodyFlat d = true)
+    (hsel1 : sel 1 = 0) (hselN : ∀ n, n ≠ 1 → sel n = 1) :
+    let body := [Part.plural b s [(1, c)] d]
+    let nm := nmOf o body
+    validate (rbody o body) = true → NamesValid (annotList nm c) → NamesValid (annotList nm d) →
+    ∃ id idPlural, msgid (rbody o body) = some id ∧ msgidPlural (rbody o body) = some idPlural ∧
+      renderTranslated ρ ν sel (rbody o body) (newMessage (nm b s) [id, idPlural])
+        = some (renderSource ρ ν (rbody o body)) := by
+  intro body nm hval nc nd
+  rw [rbody_poPlural o b s 1 c d, validate_poPlural, Bool.and_eq_true] at hval
+  obtain ⟨gc, fc⟩ := text_guard_of_validateText _ (isFlat_annotList nm c hc) hval.1 nc
+  obtain ⟨gd, fd⟩ := text_guard_of_validateText _ (isFlat_annotList nm d hd) hval.2 nd
+  exact identity_translation_plural_of_guard ρ ν sel o ho b s c d hc hd hsel1 hselN gc fc gd fd
 
 /-! ## compositionality -/
 
@@ -209,6 +257,27 @@ theorem missing_falls_back (R : List RPart) (id : UInt64) :
   refine ⟨rfl, ?_⟩
   intro b h
   simp [evalMsg, h]
+
+/-- FULL: a catalogue entry whose msgstrs are all empty (PO's "not translated yet") is not
+    loaded into the bundle, so the message renders its source text. -/
+theorem untranslated_falls_back (R : List RPart) (id : UInt64) (varName : Bytes) (msgstrs : List Bytes)
+    (h : ∀ s ∈ msgstrs, s = []) :
+    evalMsg ρ ν (some (poBundle id varName msgstrs sel)) id R = some (renderSource ρ ν R) := by
+  have hu : untranslated msgstrs = true := by
+    simp only [untranslated, List.all_eq_true]
+    intro s hs; simp [h s hs]
+  simp [evalMsg, poBundle, loadEntry, hu]
+
+/-- … and a translated entry is used as `newMessage` builds it -/
+theorem translated_entry_used (R : List RPart) (id : UInt64) (varName : Bytes) (msgstrs : List Bytes)
+    (h : ∃ s ∈ msgstrs, s ≠ []) :
+    evalMsg ρ ν (some (poBundle id varName msgstrs sel)) id R =
+      renderTranslated ρ ν sel R (newMessage varName msgstrs) := by
+  have hu : untranslated msgstrs = false := by
+    obtain ⟨s, hs, hne⟩ := h
+    simp only [untranslated, List.all_eq_false]
+    exact ⟨s, hs, by cases s <;> simp_all⟩
+  simp [evalMsg, poBundle, loadEntry, hu]
 
 theorem renderTCase_eq (R : List RPart) : ∀ (cs : List (List TPart)) (n : Nat),
     renderTCase ρ ν sel R cs n = if h : n < cs.length then renderTs ρ ν sel R cs[n] else none
@@ -286,6 +355,12 @@ example : renderTranslated ρ₀ (fun _ => 5) (fun n => if n == 1 then 0 else if
 def body₃ : List Part := [.text [123, 70, 79, 79, 125], .ph [70, 79, 79] [36, 102, 111, 111]]
 
 example : msgid (rbody Orders.id body₃) = some [123, 70, 79, 79, 125, 123, 70, 79, 79, 125] := by decide
+/-- `Validate` rejects it (it is not PO-representable), and accepts `body₁` -/
+example : validate (rbody Orders.id body₃) = false ∧ validate (rbody Orders.id body₁) = true
+    ∧ validate (rbody Orders.id body₂) = true := by decide
+/-- an untranslated entry (`msgstr ""`) falls back to the source -/
+example : evalMsg ρ₀ (fun _ => 0) (some (poBundle 7 [] [[]] sel₂)) 7 (rbody Orders.id body₁)
+    = some (renderSource ρ₀ (fun _ => 0) (rbody Orders.id body₁)) := by decide
 example : renderSource ρ₀ (fun _ => 0) (rbody Orders.id body₃) = [123, 70, 79, 79, 125] ++ ρ₀ [36, 102, 111, 111] := by decide
 example : renderTranslated ρ₀ (fun _ => 0) sel₂ (rbody Orders.id body₃)
       (newMessage [] [(msgid (rbody Orders.id body₃)).getD []])
